@@ -24,6 +24,7 @@ RULES = [
     ("R-enum", "for ( $i , $x ) in ( $r ) . enumerate ( ) {", "let mut vx_n : usize = 0 ; for $x in $r { let $i = vx_n ; vx_n += 1 ;", "Enumerate unsupported: explicit counter (same index sequence)"),
     ("R-shuffle", "message_ids . shuffle ( & mut rand :: thread_rng ( ) ) ;", "vx_shuffle ( & mut message_ids , & mut rand :: thread_rng ( ) ) ;", "rand SliceRandom::shuffle stand-in (trusted: permutes in place)"),
     ("R-shuffle", "action_ids . shuffle ( & mut rand :: thread_rng ( ) ) ;", "vx_shuffle ( & mut action_ids , & mut rand :: thread_rng ( ) ) ;", "rand SliceRandom::shuffle stand-in (trusted: permutes in place)"),
+    ("R-abs", "for ( _ , tx ) in self . bootstrap_txs . drain ( ) { tx . send ( ( ) ) . unwrap_or ( ( ) ) }", "vx_notify_all ( & mut self . bootstrap_txs ) ;", "ABSTRACTION: notifying bootstrap waiters (HashMap::drain + oneshot) replaced by an opaque stand-in; the loop is not verified"),
     ("R-inline", "split_bucket . iter ( )", "split_bucket . nodes . iter ( )", "one-expression accessor Bucket::iter inlined"),
     ("R-inline", "bucket . iter ( )", "bucket . nodes . iter ( )", "one-expression accessor Bucket::iter inlined"),
 ]
